@@ -208,8 +208,8 @@ def check_estimate(fx, R, cname, f, tag):
         pair_ok = (cb['$P1'], cb['$P2']) in ((('[]', 'sourcePoints', 'sourceIndex'), ('[]', 'targetPoints', 'targetIndex')), (('[]', 'targetPoints', 'targetIndex'), ('[]', 'sourcePoints', 'sourceIndex')))
     else:
         sm, tm = decls.get('sourceMean'), decls.get('targetMean')
-        okm = sm is not None and tm is not None and isinstance(sm[1], tuple) and sm[1][0].startswith('mean<') and sm[1][1:] == ('sourcePoints',) \
-            and isinstance(tm[1], tuple) and tm[1][0].startswith('mean<') and tm[1][1:] == ('targetPoints',)
+        okm = sm is not None and tm is not None and isinstance(sm[1], tuple) and sm[1][0] == 'mean' and sm[1][1:] == ('sourcePoints',) \
+            and isinstance(tm[1], tuple) and tm[1][0] == 'mean' and tm[1][1:] == ('targetPoints',)
         R.check(okm, 'V2', inst + ':means', 'means are not mean(sourcePoints)/mean(targetPoints): %s %s' % (sm, tm), 'means of the two sets', fx.rel(f['loc']), 'E-SIB')
         pair_ok = (cb['$P1'], cb['$P2']) in ((('[]', 'sourcePoints', 'n'), ('[]', 'targetPoints', 'n')), (('[]', 'targetPoints', 'n'), ('[]', 'sourcePoints', 'n')))
     R.check(pair_ok, 'V3', inst + ':pairs', 'covariance pairs %s with %s: not the corresponded pair' % (cb['$P1'], cb['$P2']), 'pairs the corresponded points', fx.rel(covs[0][1][2]['loc']), 'E-SIB')
